@@ -1,7 +1,7 @@
 (* C01 -- actions: run_act on partitions equals run_list on the flat content; pipeline theorem. *)
 From Coq Require Import String ZArith NArith List Bool Lia.
 Require Import PV.Base.Val PV.Base.PyArith PV.Base.Num.
-Require Import PV.Model.Rdd PV.Proofs.Rdd PV.Proofs.RddTr.
+Require Import PV.Model.Rdd PV.Proofs.Rdd PV.Proofs.RddTr PV.Proofs.RddCount.
 Import ListNotations.
 Open Scope Z_scope.
 
@@ -9,6 +9,9 @@ Open Scope Z_scope.
 (* associativity in the error monad: both groupings give the same value or the same exception *)
 Definition assoc_m (f : op2) : Prop :=
   forall a b c, (bc <- f b c ;; f a bc) = (ab <- f a b ;; f ab c).
+
+(* every exception the operator raises has the same class (all library operators: TypeError) *)
+Definition single_err (f : op2) : Prop := exists e0, forall a b e, f a b = Err e -> e = e0.
 
 (* Spark's contract for aggregate(zero, seqOp, combOp), stated on the images of the sequential fold:
    combining with the zero changes nothing, and combining two partial folds is the fold of the
@@ -53,20 +56,8 @@ Proof.
 Qed.
 
 (* ---------------------------------------------------------------- reduce *)
-Definition red1 (f : op2) (p : list val) : res (option val) :=
-  match p with [] => Ok None | x :: p' => rmap Some (foldM f p' x) end.
-
-Lemma fwe_some f l : forall a, foldM (f_we f) (map Some l) (Some a) = rmap Some (foldM f l a).
-Proof.
-  induction l as [|x l IH]; intros a; simpl; auto.
-  destruct (f a x); simpl; auto.
-Qed.
-
-Lemma reducer_red1 f p : reducer f (map Some p) = red1 f p.
-Proof. destruct p; simpl; auto. unfold reducer. simpl. apply fwe_some. Qed.
-
 (* f a (x + l1 + ... + lk) = (a + x) + l1 + ... + lk *)
-Lemma assoc_fold f : assoc_m f -> forall l x a,
+Lemma assoc_fold (f : op2) : assoc_m f -> forall l x a,
   (y <- foldM f l x ;; f a y) = (a1 <- f a x ;; foldM f l a1).
 Proof.
   intros Ha. induction l as [|z l IH]; intros x a; simpl.
@@ -79,53 +70,68 @@ Proof.
     rewrite (Ha a x z). rewrite bind_assoc. reflexivity.
 Qed.
 
-Definition red_state (f : op2) (acc : option val) (xs : list val) : res (option val) :=
-  match acc with None => red1 f xs | Some a => rmap Some (foldM f xs a) end.
-
-Lemma reduce_parts f : assoc_m f -> forall ps acc,
-  job_fold (fun p => reducer f (map Some p)) (f_we f) ps acc = red_state f acc (concat ps).
+Lemma foldM_err (f : op2) e0 : (forall a b e, f a b = Err e -> e = e0) ->
+  forall l a e, foldM f l a = Err e -> e = e0.
 Proof.
-  intros Ha. induction ps as [|p ps IH]; intros acc.
-  - simpl. destruct acc; reflexivity.
-  - simpl job_fold. rewrite reducer_red1. simpl concat.
-    destruct p as [|x p].
-    + simpl. destruct acc; simpl; apply IH.
-    + simpl red1. destruct acc as [a|]; simpl red_state.
-      * (* accumulated value a, partition x :: p *)
-        assert (R : rmap Some (a' <- f a x;; foldM f (p ++ concat ps) a') =
-                    rmap Some (a1 <- f a x ;; a' <- foldM f p a1 ;; foldM f (concat ps) a')).
-        { f_equal. apply bind_ext. intros a1. apply foldM_app. }
-        rewrite R. clear R.
-        rewrite rmap_bind, !bind_assoc.
-        transitivity (y <- foldM f p x ;; a' <- f a y ;; rmap Some (foldM f (concat ps) a')).
-        { apply bind_ext. intros y. simpl. rewrite rmap_bind, bind_assoc.
-          apply bind_ext. intros a'. simpl. apply IH. }
-        transitivity (a' <- (y <- foldM f p x ;; f a y) ;; rmap Some (foldM f (concat ps) a')).
-        { rewrite bind_assoc. reflexivity. }
-        rewrite (assoc_fold f Ha p x a).
-        destruct (f a x) as [a1|]; simpl; auto. destruct (foldM f p a1); simpl; auto.
-      * assert (R : foldM f (p ++ concat ps) x = (y <- foldM f p x ;; foldM f (concat ps) y)) by apply foldM_app.
-        change ((x :: p) ++ concat ps) with (x :: (p ++ concat ps)). simpl red1. rewrite R. clear R.
-        rewrite rmap_bind, bind_assoc. simpl.
-        transitivity (y <- foldM f p x ;; rmap Some (foldM f (concat ps) y)).
-        { apply bind_ext. intros y. apply IH. }
-        destruct (foldM f p x); simpl; auto.
+  intros H. induction l as [|x l IH]; intros a e E; simpl in E; [discriminate|].
+  destruct (f a x) eqn:Ef; simpl in E; eauto.
+  inversion E; subst. eauto.
 Qed.
 
-Theorem reduce_flat f ps : assoc_m f -> run_act (AReduce f) ps = run_list (AReduce f) (concat ps).
+Lemma tasks_err (f : op2) e0 : (forall a b e, f a b = Err e -> e = e0) ->
+  forall ps e, mapM (reduce_partition f) ps = Err e -> e = e0.
 Proof.
-  intros Ha. simpl. rewrite reduce_parts by assumption. simpl.
-  destruct (concat ps) as [|x xs]; simpl; auto.
-  destruct (foldM f xs x); reflexivity.
+  intros H. induction ps as [|p ps IH]; intros e E; simpl in E; [discriminate|].
+  destruct (reduce_partition f p) eqn:Et; simpl in E.
+  - destruct (mapM (reduce_partition f) ps) eqn:Em; simpl in E; [discriminate|]. inversion E; subst. eauto.
+  - inversion E; subst. destruct p as [|x p]; simpl in Et; [discriminate|].
+    destruct (foldM f p x) eqn:Ef; simpl in Et; [discriminate|]. inversion Et; subst.
+    eapply foldM_err; eauto.
+Qed.
+
+(* all tasks first, then the fold of the partial results = the fold of the flat list *)
+Lemma reduce_tasks_fold (f : op2) e0 : assoc_m f -> (forall a b e, f a b = Err e -> e = e0) ->
+  forall ps r, (ts <- mapM (reduce_partition f) ps ;; foldM f (concat ts) r) = foldM f (concat ps) r.
+Proof.
+  intros Ha He. induction ps as [|p ps IH]; intros r; [reflexivity|].
+  destruct p as [|x p].
+  - simpl. rewrite <- IH. destruct (mapM (reduce_partition f) ps); reflexivity.
+  - assert (R : foldM f (concat ((x :: p) :: ps)) r =
+                (r' <- (y <- foldM f p x ;; f r y) ;; foldM f (concat ps) r')).
+    { rewrite (assoc_fold f Ha p x r). simpl. rewrite bind_assoc. apply bind_ext. intros a1. apply foldM_app. }
+    rewrite R. clear R. simpl mapM. simpl reduce_partition.
+    destruct (foldM f p x) as [y|e] eqn:Ey; simpl; [|reflexivity].
+    destruct (mapM (reduce_partition f) ps) as [ts|e] eqn:Em; simpl.
+    + destruct (f r y) as [r'|e] eqn:Er; simpl; [|reflexivity].
+      exact (IH r').
+    + apply (tasks_err f e0 He) in Em as Ee. subst e.
+      destruct (f r y) as [r'|e] eqn:Er; simpl.
+      * rewrite <- IH. reflexivity.
+      * apply He in Er. subst e. reflexivity.
+Qed.
+
+Theorem reduce_flat f ps : assoc_m f -> single_err f ->
+  run_act (AReduce f) ps = run_list (AReduce f) (concat ps).
+Proof.
+  intros Ha [e0 He]. simpl.
+  induction ps as [|p ps IH]; [reflexivity|].
+  destruct p as [|x p].
+  - simpl. simpl in IH. rewrite <- IH. destruct (mapM (reduce_partition f) ps); reflexivity.
+  - simpl mapM. simpl reduce_partition.
+    change (concat ((x :: p) :: ps)) with (x :: (p ++ concat ps)). cbv iota. rewrite foldM_app.
+    destruct (foldM f p x) as [y|e]; simpl; [|reflexivity].
+    rewrite <- (reduce_tasks_fold f e0 Ha He ps y).
+    destruct (mapM (reduce_partition f) ps); reflexivity.
 Qed.
 
 Theorem reduce_empty f ps : concat ps = [] -> run_act (AReduce f) ps = Err "ValueError".
 Proof.
   intros H. simpl.
-  assert (E : job_fold (fun p => reducer f (map Some p)) (f_we f) ps None = Ok None).
-  { induction ps as [|p ps IH]; simpl; auto.
-    simpl in H. apply app_eq_nil in H. destruct H as [-> H]. simpl. auto. }
-  rewrite E. reflexivity.
+  assert (E : exists ts, mapM (reduce_partition f) ps = Ok ts /\ concat ts = []).
+  { induction ps as [|p ps IH]; simpl; [exists []; auto|].
+    simpl in H. apply app_eq_nil in H. destruct H as [-> H]. destruct (IH H) as [ts [E1 E2]].
+    simpl. rewrite E1. simpl. exists ([] :: ts). auto. }
+  destruct E as [ts [E1 E2]]. rewrite E1. simpl. rewrite E2. reflexivity.
 Qed.
 
 (* ---------------------------------------------------------------- fold / aggregate *)
@@ -172,8 +178,6 @@ Proof.
   simpl.
   pose proof (parts_flat (lookup_fn key) ps) as E1.
   destruct (mapM (flat_mapM (lookup_fn key)) ps) as [q|e]; simpl in E1; rewrite <- E1; simpl; auto.
-  pose proof (parts_flat values_fn q) as E2.
-  destruct (mapM (flat_mapM values_fn) q) as [q'|e]; simpl in E2; rewrite <- E2; simpl; auto.
 Qed.
 
 (* ---------------------------------------------------------------- min / max *)
@@ -274,13 +278,13 @@ Qed.
 (* premises, only where needed; xs is the plain-list data the action is applied to *)
 Definition act_ok (a : act) (xs : list val) : Prop :=
   match a with
-  | AReduce f => assoc_m f
+  | AReduce f => assoc_m f /\ single_err f
   | AFold z op => agg_hom z op op
   | AAggregate z seq comb => agg_hom z seq comb
   | ATake n | ATop n _ | ATakeOrdered n _ => 0 <= n
   | AMin | AMax => xs <> []
   | AMean => False              (* floating point: see mean_real *)
-  | ACountByValue => False      (* see countByValue_flat *)
+  | ACountByValue => Forall Simple xs     (* float-free values: == is decided by val_eqb *)
   | _ => True
   end.
 
@@ -292,9 +296,10 @@ Proof.
   - apply first_flat.
   - apply take_flat; assumption.
   - simpl. rewrite sum_flat. reflexivity.
-  - apply reduce_flat; assumption.
+  - destruct H; apply reduce_flat; assumption.
   - apply fold_flat; assumption.
   - apply aggregate_flat; assumption.
+  - apply countByValue_flat; assumption.
   - simpl. apply sorted_take_flat; assumption.
   - simpl. apply sorted_take_flat; assumption.
   - apply lookup_flat.
